@@ -13,6 +13,8 @@
 // run:
 //   mkdir -p /var/tmp/c19_corpus && /var/tmp/c19_sdu_fuzz -seed=${VERIF_SEED:-1} -runs=2000000 -max_len=600 /var/tmp/c19_corpus
 // only crash-* artefacts count; slow-unit / timeout / oom are noise.
+// fuzz-flags: -fsanitize-address-field-padding=1 -fsanitize-ignorelist=$ROOT/engines/comp/c19_field_padding.ignorelist -I$ROOT/engines/comp/nrf_stub -I$REPO/bluetoe/bindings/nordic/include
+// fuzz-libs: -lrapidcheck
 #define C19_SDU_NO_MAIN
 #include "c19_sdu.cpp"
 
